@@ -1,4 +1,5 @@
 mod cluster;
+mod consistency;
 mod faulty;
 mod group;
 mod keyspace;
@@ -18,6 +19,7 @@ fn main() {
     match cmd.as_str() {
         "replay-storage" => rt.block_on(storage::replay()),
         "replay-cluster" => rt.block_on(cluster::replay()),
+        "record-consistency" => rt.block_on(consistency::record()),
         "replay-transfer" => rt.block_on(transfer::replay()),
         "transfer-garbage" => rt.block_on(transfer::garbage()),
         other => {
